@@ -78,7 +78,7 @@ pub fn run_case(line: &str) -> String {
         }
         (Some("classify"), 2) => {
             let Some(c) = f[1].parse::<u32>().ok().and_then(char::from_u32) else { return "bad-args".into() };
-            format!("{} {} {}", c.is_alphabetic(), c.is_numeric(), c.is_uppercase())
+            format!("{} {} {}", c.is_alphabetic(), c.is_numeric(), c.is_ascii_uppercase())
         }
         (Some("display"), 2) => {
             let Some(k) = key(f[1]) else { return "bad-args".into() };
